@@ -75,13 +75,14 @@ theorem NamesRel.append {ty : Str} {ps qs : List (Str × Flags)} {a b c : Chan}
 structure AtSrv (s : Srv) (b : Bot) : Prop where
   wf : SrvWF s
   nick : b.nick = s.bot
+  isup : IsupOK b.isup
 
 theorem AtSrv.server {s : Srv} {b : Bot} (h : AtSrv s b) : ServerOK s.cfg.server ∧ s.cfg.server ≠ b.nick := by
   have hsv := serverOK_of_cfg h.wf.cfg
   exact ⟨hsv, by rw [h.nick]; exact server_ne_nick hsv h.wf.botNickOK⟩
 
 theorem AtSrv.frame {s : Srv} {key : Str} {b b' : Bot} (h : AtSrv s b) (hf : Frame s key b b') : AtSrv s b' :=
-  ⟨h.wf, hf.nick.trans h.nick⟩
+  ⟨h.wf, hf.nick.trans h.nick, by rw [hf.isup]; exact h.isup⟩
 
 def secretMark (ty : Str) (c : Chan) : Chan :=
   if ty = ['@'] then { c with modes := aset c.modes 's' none } else c
@@ -114,7 +115,7 @@ theorem names_line {s : Srv} {b : Bot} (h : AtSrv s b) (name ty : Str) {ps : Lis
     (s.cfg.uhnames = true → ∀ p ∈ ps, ∃ u, aget s.users p.1 = some u ∧
       aget (b.feed ⟨s.cfg.server, "353".toList, [s.bot, ty, name, joinChar ' ' (ps.map s.namesItem)]⟩).1.n2h p.1 = some u.mask) := by
   obtain ⟨hsv, hne⟩ := h.server
-  have hfeed := feed_server (b := b) hsv hne "353".toList [ty, name, joinChar ' ' (ps.map s.namesItem)]
+  have hfeed := feed_server (b := b) h.isup hsv hne "353".toList [ty, name, joinChar ' ' (ps.map s.namesItem)]
     (by simp only [Bot.ircCmd, cmdOf_353])
   rw [h.nick] at hfeed
   have hsplit : splitWs (joinChar ' ' (ps.map s.namesItem)) = ps.map s.namesItem :=
@@ -126,7 +127,7 @@ theorem names_line {s : Srv} {b : Bot} (h : AtSrv s b) (name ty : Str) {ps : Lis
     rw [hfeed]
     simp only [Bot.stateCmd, cmdOf_353, Bot.do353, hsplit, hcn, foldl_addUser_items hps, Bot.setChan, secretMark]
   rw [hres]
-  refine ⟨⟨rfl, rfl, rfl, rfl, fun k hk => aget_aset_ne _ _ (Ne.symm hk), ?_⟩,
+  refine ⟨⟨rfl, rfl, rfl, rfl, rfl, fun k hk => aget_aset_ne _ _ (Ne.symm hk), ?_⟩,
     ⟨_, aget_aset_self _ _ _, namesRel_line ty (shownMembers s ps) ch⟩, ?_⟩
   · intro x
     exact foldl_n2h353_items hps b.n2h x
@@ -137,7 +138,7 @@ theorem names_line {s : Srv} {b : Bot} (h : AtSrv s b) (name ty : Str) {ps : Lis
 theorem noop_line {s : Srv} {b : Bot} (h : AtSrv s b) (cmd : Str) (rest : List Str) (hk : cmdOf cmd = .other) :
     (b.feed ⟨s.cfg.server, cmd, s.bot :: rest⟩).1 = b := by
   obtain ⟨hsv, hne⟩ := h.server
-  have hfeed := feed_server (b := b) hsv hne cmd rest (by simp only [Bot.ircCmd, hk])
+  have hfeed := feed_server (b := b) h.isup hsv hne cmd rest (by simp only [Bot.ircCmd, hk])
   rw [h.nick] at hfeed
   rw [hfeed]
   simp only [Bot.stateCmd, hk]
